@@ -60,10 +60,14 @@ func (p *ParserPlanner) Process(ctx *shared.PlannerContext,
 			if entry.Err != nil {
 				return nil
 			}
-			var err error
-			entry.Labels, err = parser(entry.Message, &entry.Labels)
+			// a line the parser cannot read keeps its labels and stays in the result, as it does
+			// when the same stage runs in ClickHouse; it must not end the whole query
+			labels, err := parser(entry.Message, &entry.Labels)
+			if err == nil {
+				entry.Labels = labels
+			}
 			entry.Fingerprint = fingerprint(entry.Labels)
-			return err
+			return nil
 		},
 		OnAfterEntriesSlice: func(entries []shared.LogEntry, c chan []shared.LogEntry) error {
 			c <- entries
